@@ -772,16 +772,25 @@ class BlobStorage(BlobStorageMixin):
         # We need to override the base storage's tpc_finish instead of
         # providing a _finish method because methods found on the proxied
         # object aren't rebound to the proxy
-        tid = self.__storage.tpc_finish(*arg, **kw)
-        self._blob_tpc_finish()
-        return tid
+        # The bookkeeping is done only for the transaction that is being
+        # committed, and before delegating: the wrapped storage releases the
+        # commit lock, after which dirty_oids belongs to the next transaction.
+        transaction = arg[0] if arg else kw.get('transaction')
+        if self.__storage.tpc_transaction() is transaction:
+            self._blob_tpc_finish()
+        return self.__storage.tpc_finish(*arg, **kw)
 
     def tpc_abort(self, *arg, **kw):
         # We need to override the base storage's abort instead of
         # providing an _abort method because methods found on the proxied
         # object aren't rebound to the proxy
+        # Clean up only for the transaction that is being committed (a call
+        # with another transaction must have no effect), and before
+        # delegating: the wrapped storage releases the commit lock.
+        transaction = arg[0] if arg else kw.get('transaction')
+        if self.__storage.tpc_transaction() is transaction:
+            self._blob_tpc_abort()
         self.__storage.tpc_abort(*arg, **kw)
-        self._blob_tpc_abort()
 
     def _packUndoing(self, packtime, referencesf):
         # Walk over all existing revisions of all blob files and check
